@@ -26,6 +26,21 @@ def _ev(k, name="", el=0, tag="", raised=False, pos=0, outcome="", status="", ou
             "vis": vis or [0, 0, 0, 0, 0], "lvl": lvl, "mine": bool(mine), "cid": cid, "undefined": bool(undefined), "n": n, "att": att, "nfor": nfor}
 
 
+class _Forward(object):
+    """stand-in stream a step leaves behind in sys.stdout / sys.stderr: forwards to the stream it replaced"""
+    def __init__(self, inner):
+        self.inner = inner
+
+    def write(self, text):
+        return self.inner.write(text)
+
+    def flush(self):
+        return self.inner.flush()
+
+    def __getattr__(self, name):
+        return getattr(self.inner, name)
+
+
 class _MarkHandler(logging.Handler):
     """the user's own root handler (the 'non-capture handler' of C18)"""
     def __init__(self):
@@ -65,7 +80,10 @@ def run_case(case, reports=False, keep_objects=False):
     root = logging.getLogger()
     saved_handlers, saved_level = list(root.handlers), root.level
     mark = _MarkHandler()
-    root.handlers = [mark]
+    # the user's own root handler: present before the run, or (--logging-clear-handlers) installed in before_all as
+    # environment files do; the root level starts at Python's default
+    root.handlers = [] if cfg.get("logclear") else [mark]
+    root.setLevel(logging.WARNING)
     outdir = tempfile.mkdtemp(prefix="verif-run-") if reports else None
     hookn = [0]
     attempts = {}           # scenario id -> number of before_scenario hook calls so far (= attempt number, autoretry)
@@ -166,6 +184,8 @@ def run_case(case, reports=False, keep_objects=False):
             args.append("--logging-level=%s" % cfg["loglevel"])
         if cfg.get("logfilter"):
             args.append("--logging-filter=%s" % cfg["logfilter"])
+        if cfg.get("logclear"):
+            args.append("--logging-clear-handlers")
         try:
             config = Configuration(command_args=args, load_config=False)
         except SystemExit:
@@ -207,6 +227,12 @@ def run_case(case, reports=False, keep_objects=False):
                 events.append(_ev("after_nested", el=sid, pos=pos, att=att, **probe(ctx)))
                 print("A%d_%d" % (sid, pos))
                 return
+            if cfg.get("tamper") and o in ("fail", "error"):
+                # a step that redirects the process streams by hand and dies before undoing it
+                if cfg.get("cap_out", True):
+                    sys.stdout = _Forward(sys.stdout)
+                if cfg.get("cap_err", True):
+                    sys.stderr = _Forward(sys.stderr)
             if o == "fail":
                 assert False, "M%d_%d" % (sid, pos)
             if o == "error":
@@ -319,6 +345,8 @@ def run_case(case, reports=False, keep_objects=False):
                     el = elid(a[0])
                 raised = hookn[0] in faults
                 att = 0
+                if nm == "before_all" and cfg.get("logclear") and mark not in root.handlers:
+                    root.addHandler(mark)
                 if el and elems[el - 1]["kind"] == "scenario":
                     att = attempts.get(el, 1)
                 events.append(_ev("hook", name=nm, el=el, tag=tag, n=hookn[0], raised=raised, pos=pos, att=att, **probe(ctx)))
